@@ -59,7 +59,7 @@ def obligations(thorough):
     add('json_ExecutionSteps[sim-only]', 'json_ExecutionSteps', dict(VH_SIMONLY=1, VH_SHAPE='0,0'))
     add('json_ExecutionSteps[with-estimation]', 'json_ExecutionSteps', dict(VH_SHAPE='0,0'))          # finding G2
     add('json_LogEntry', 'json_LogEntry')
-    for f in ('jsonreal_Parameter', 'jsonreal_VariabilityHierarchy', 'jsonreal_SimulationStep'):
+    for f in ('jsonreal_Parameter', 'jsonreal_VariabilityHierarchy', 'jsonreal_SimulationStep', 'jsonreal_Log'):
         add(f, f)
     funcs = []
     for o in obs:
@@ -107,7 +107,7 @@ def main():
                 'distributions, RandomVariables, Statements, Model: symengine/sympy objects cannot be symbolic); '
                 'DataFrame-valued fields; equality is the classes\' own __eq__ (e.g. DataInfo.__eq__ ignores path, '
                 'separator, missing_data_token; ColumnInfo.__eq__ ignores descriptor), LogEntry (no __eq__) is compared '
-                'field by field; Log (int keys in to_dict) not included')
+                'field by field; Log: order and fields of <= 14 entries through the real json module (jsonreal_Log)')
     run.assumptions = [
         'structural model of the builtin hash inside pharmpy modules (Parameter.__eq__/Parameters.__eq__ compare hashes); '
         'failing paths re-decided with the builtin hash on realised objects',
